@@ -319,6 +319,7 @@ func (w *world) probe(n *node) {
 		case fJSON:
 			prob = vlib.CheckJSONRecord(p, exp)
 		case fLogfmt:
+			exp.QuotingNotJudged = true // quoting is C05's clause
 			prob = vlib.CheckLogfmtRecord(p, exp, false)
 		default:
 			txt := strings.SplitN(vlib.SimulateSGR(p).Text, "\n", 2)[0]
